@@ -168,7 +168,8 @@ func (m mcmd) canon() string {
 		}
 		out := strings.Join(t[:n], " ")
 		for i := n; i+1 < len(t); i += 2 {
-			out += " " + t[i] + ":" + t[i+1]
+			// the model logs the command with the names field.Make stores (trimmed)
+			out += " " + model.H(strings.TrimSpace(model.U(t[i]))) + ":" + t[i+1]
 		}
 		return out
 	case "aofshrink":
